@@ -183,12 +183,12 @@ class Bounds:
                         bm = None
                     if isinstance(bm, int):
                         hi = min(hi, bm)
-            if isinstance(base, tuple) and base[0] == "field" and isinstance(base[1], tuple) and base[1][0] == "param":
-                f = self.W.prog.fns.get(base[1][1])
-                if f is not None and f.impl_self and (f.impl_self, base[2]) in self.field_min_len:
-                    lo = max(lo, self.field_min_len[(f.impl_self, base[2])])
-                if f is not None and f.impl_self and (f.impl_self, base[2]) in getattr(self, "field_max_len", {}):
-                    hi = min(hi, self.field_max_len[(f.impl_self, base[2])])
+            if isinstance(base, tuple) and base[0] == "field":
+                owner = self.adt_of_term(base[1])
+                if owner and (owner, base[2]) in self.field_min_len:
+                    lo = max(lo, self.field_min_len[(owner, base[2])])
+                if owner and (owner, base[2]) in getattr(self, "field_max_len", {}):
+                    hi = min(hi, self.field_max_len[(owner, base[2])])
         elif k == "field" and a[2] == "0" and isinstance(a[1], tuple) and a[1][0] == "vfield":
             src = a[1][1]
             # byte count returned by recv_from / read into a buffer: at most the buffer length
@@ -269,6 +269,29 @@ class Bounds:
                     l2, h2 = sub(r)
                     lo, hi = max(lo, l2), min(hi, h2)
         return lo, hi
+
+    def adt_of_term(self, t, depth=0):
+        """Crate type of the value a term denotes: `self` of a method, or a (nested) field of such a value (`self.merkle` -> MerkleTree)."""
+        P = self.W.prog
+        if not isinstance(t, tuple) or not t or depth > 4:
+            return None
+        if t[0] == "param":
+            f = P.fns.get(t[1])
+            if f is None or t[2] >= len(f.locals):
+                return None
+            ty = f.locals[t[2]]["ty"].replace("&mut ", "").replace("&", "").strip()
+            if ty in P.adts:
+                return ty
+            return f.impl_self if t[2] == 1 and f.impl_self and ty.split("<")[0].endswith(f.impl_self.split("::")[-1]) else None
+        if t[0] == "field":
+            o = self.adt_of_term(t[1], depth + 1)
+            a = P.adts.get(o) if o else None
+            if a and a.get("variants"):
+                for fl in a["variants"][0]["fields"]:
+                    if fl["name"] == t[2]:
+                        ty = fl["ty"].replace("&mut ", "").replace("&", "").strip()
+                        return ty if ty in P.adts else None
+        return None
 
     def snapshot_valid(self, a, bb):
         """a = ('len', place, (fn, block)): no block on a path from the snapshot site to bb (loops included) may mutate the place."""
